@@ -377,6 +377,13 @@ Definition dspec_ok (hasx : bool) (l : list (dop * obs)) : bool := dspec_run has
 Definition dstorm_ok (hasx : bool) (xshut : nat) (errs : list err) : bool :=
   (xshut =? (if hasx then 1 else 0)) && forallb (fun e => err_eqb e ENil) errs.
 
+(** Overlapping Shutdown callers (direct and through a provider) of one processor whose exporter is slow:
+    [at_return] = the number of exporter shutdowns seen by each Shutdown caller at the moment its call
+    returned, [late] = exports begun after some Shutdown call had returned. *)
+Definition dstorm2_ok (hasx : bool) (at_return : list nat) (late : nat) (errs : list err) : bool :=
+  negb (length at_return =? 0) && forallb (fun c => c =? (if hasx then 1 else 0)) at_return &&
+  (late =? 0) && forallb (fun e => err_eqb e ENil) errs.
+
 (** One metric reader used directly and through the provider(s) it was handed to: [reg] = 0 (never handed
     to a provider), 1, or 2 (handed to two providers: the second registration is refused, but that
     provider's Shutdown still shuts the reader down).  Whoever shuts the reader down first (the reader's own
